@@ -166,6 +166,27 @@ def scenarios(tier, rng):
             if i % 50 == 49:
                 s.chk()
         s.chk(); out.append(s)
+    # 4c. characters of the numeric tail inside the name itself: a '~' (and digits behind it) at every position of the converted
+    #     base, colliding families of such names, with removals; aliases of earlier members look like "AB~CD~1", "~$REPO~1", "A~1~1"
+    for conf, sub in ((ROOT16, False), (FAT32, True)):
+        s = Scn("tilde-inside", conf, sub)
+        fam = []
+        for pos in range(0, 9):
+            stem = "abcdefghij"
+            b = stem[:pos] + "~" + stem[pos:]
+            for k in range(6 if q else 14):
+                fam.append("%s number %d.bak" % (b, k))
+        fam += ["~$report final.docx", "~$report draft.docx", "~$report third.docx", "~1~1~1 long name a.txt", "~1~1~1 long name b.txt",
+                "a~1 long enough name x.txt", "a~1 long enough name y.txt", "a~1 long enough name z.txt", "~~~~~~~~~ one.t", "~~~~~~~~~ two.t",
+                "ab~ 1.txt", "ab~ 2.txt", "x~9 first.dat", "x~9 second.dat", "x~9 third.dat", "x~9 fourth.dat", "x~9 fifth.dat", "x~9 sixth.dat"]
+        rng.shuffle(fam)
+        for i, nm in enumerate(fam):
+            s.c(nm, "dir" if i % 9 == 4 else "file")
+            if i % 8 == 7:
+                s.r(fam[i - 3])
+            if i % 30 == 29:
+                s.chk()
+        s.chk(); out.append(s)
     # 5. a big directory (thorough): thousands of entries sharing one 6-character prefix and few checksums
     if not q:
         s = Scn("big", ROOT16BIG, False)
